@@ -77,7 +77,12 @@ let () = serve (fun fn req ->
                                  SL.find_opt (fun u -> string_of_n u.uid = i) (SL.map Stdlib.fst w0)) (jlist j) in
     let start b = (match jfield_opt builds.(int_of_nat b) "start" with Some j -> jbool j | None -> true) in
     let lock_pre = (match jfield_opt req "lock_pre" with Some j -> jbool j | None -> true) in
-    let st = run use_lock lock_pre (nat_of_int nb) chooser more finish pre start can_sign sched (init w0) in
+    (* cancellation points of a build: the numbers of completed rounds at which it is cancelled *)
+    let quits b r =
+      match jfield_opt builds.(int_of_nat b) "quits" with
+      | None | Some JNull -> false
+      | Some j -> SL.mem (int_of_nat r) (SL.map jint (jlist j)) in
+    let st = run use_lock lock_pre (nat_of_int nb) chooser more finish pre start quits can_sign sched (init w0) in
     JObj [("builds", JArr (SL.init nb (fun i ->
              let b = st.bs (nat_of_int i) in
              JObj [("phase", JStr (phase_name b.ph)); ("held", nlist (SL.map (fun u -> u.uid) b.held));
